@@ -229,3 +229,23 @@ pub fn headers_bytes(h: &crate::master::Headers) -> Option<Vec<u8>> {
 pub fn command_bytes(c: &crate::master::CommandHeaders) -> Option<Vec<u8>> {
     with_header_writer(|w| c.write(w).is_ok())
 }
+
+/// a device attribute as the object (header included) that carries it in a response or a WRITE
+pub fn owned_attribute_bytes(attr: &crate::app::attr::OwnedAttribute) -> Option<Vec<u8>> {
+    with_header_writer(|w| w.write_attribute(attr).is_ok())
+}
+
+/// parse `objects` as the object headers of a response and run the master's extraction over them with `handler`
+pub fn deliver_response_objects(objects: &[u8], handler: &mut dyn crate::master::ReadHandler) -> bool {
+    match crate::app::parse::parser::HeaderCollection::parse(
+        crate::app::parse::options::ParseOptions::default(),
+        crate::app::FunctionCode::Response,
+        objects,
+    ) {
+        Ok(objs) => {
+            crate::master::extract::extract_measurements_inner(objs, handler);
+            true
+        }
+        Err(_) => false,
+    }
+}
